@@ -41,6 +41,16 @@ def nodeToGfa (g : G D) (id : Nat) : Option String :=
 def writeGfa (g : G D) : Option String :=
   ((List.range g.nodes.length).mapM (nodeToGfa g)).map fun ls => "H\tVN:Z:debruijn-rs\n" ++ String.join ls
 
+/-- `node_to_gfa` with a tag function: the `S` line carries the tags as a further tab-separated field -/
+def nodeToGfaTags (g : G D) (tagf : Nat → Node D → String) (id : Nat) : Option String :=
+  match g.nodes[id]?, nodeLinks g id with
+  | some nd, some ls => some (s!"S\t{id}\t{seqStr nd.seq}\t{tagf id nd}\n" ++ String.join (ls.map (renderLink g.K)))
+  | _, _ => none
+
+/-- `to_gfa_with_tags` (the text written to the file) -/
+def writeGfaTags (g : G D) (tagf : Nat → Node D → String) : Option String :=
+  ((List.range g.nodes.length).mapM (nodeToGfaTags g tagf)).map fun ls => "H\tVN:Z:debruijn-rs\n" ++ String.join ls
+
 /-- `Debug` of the node's slice inside the packed sequence set (summary form from 256 bases on) -/
 def sliceDebug (start : Nat) (s : Seq) : String :=
   if s.length < Gen.sliceDebugLimit then seqStr s else s!"start: {start}, len: {s.length}, is_rc: false"
